@@ -412,7 +412,7 @@ def run(ctx):
     if ctx.tier == "thorough":
         ctx.coqchk()
     stats = {}
-    n_inst = ctx.n(8, 120)
+    n_inst = ctx.n(6, 40)
     corpus = load_corpus(ctx.prop)
     cases = [c["case"] if "case" in c else c for c in corpus] + gen_cases(ctx.rng, n_inst, stats=stats)
     evaluated = []
@@ -439,7 +439,7 @@ def run(ctx):
     ctx.coverage["generation"] = stats
     ctx.log(f"oracle cases={len(evaluated)} failures={len(ctx.failures)} matrix={len(full & matrix)}/{len(full)}")
     if ok:
-        corr(ctx, evaluated, ctx.n(120, 2500))
+        corr(ctx, evaluated, ctx.n(80, 600))
     if (ctx.proof_breaks or ctx.corr_breaks) and not ctx.failures:
         ctx.log(f"proof/correspondence broke ({len(ctx.proof_breaks)}/{len(ctx.corr_breaks)}); widening the search")
         around = sorted({b["case"]["cls"] for b in ctx.corr_breaks if isinstance(b.get("case"), dict)}) or None
